@@ -330,13 +330,14 @@ func lz4Prefix(f *ssa.Function, intFn, lzFn string) string {
 	return end + pre + off
 }
 
-// switchConsts: the integer constants a value of the named type is compared with (==) in f.
+// switchConsts: the integer constants a value of the named type is compared with (== or !=, i.e. switch cases and
+// if/else-if chains alike) in f.
 func switchConsts(f *ssa.Function, typName string) map[int64]bool {
 	out := map[int64]bool{}
 	for _, b := range f.Blocks {
 		for _, in := range b.Instrs {
 			bo, ok := in.(*ssa.BinOp)
-			if !ok || bo.Op != token.EQL {
+			if !ok || (bo.Op != token.EQL && bo.Op != token.NEQ) {
 				continue
 			}
 			for _, pr := range [][2]ssa.Value{{bo.X, bo.Y}, {bo.Y, bo.X}} {
